@@ -5,7 +5,6 @@ import (
 	"fmt"
 	"time"
 	"io"
-	stdlog "log"
 	"net/http"
 	"net/http/httptest"
 	"strings"
@@ -45,6 +44,15 @@ func (c c18cfg) GetEnableWriteOperations() bool  { return c.write }
 
 var c18Silenced bool
 
+// c18Quiet is a chi log formatter that writes nothing (the default one pretty-prints the stack of
+// every recovered handler panic to stderr, which dominates the cost of a request that reaches a
+// database-backed handler without a database).
+type c18Quiet struct{}
+
+func (c18Quiet) NewLogEntry(*http.Request) middleware.LogEntry { return c18Quiet{} }
+func (c18Quiet) Write(int, int, http.Header, time.Duration, interface{}) {}
+func (c18Quiet) Panic(interface{}, []byte)                               {}
+
 const c18Epoch = "0x" + "00000000000000000000000000000000000000000000000000000000000000ab"
 
 var c18Body = `{"block_number":1,"epoch_id":"` + c18Epoch + `"}`
@@ -52,7 +60,7 @@ var c18Body = `{"block_number":1,"epoch_id":"` + c18Epoch + `"}`
 func runC18(r *simkit.Run) {
 	c := r.C
 	if !c18Silenced {
-		middleware.DefaultLogger = middleware.RequestLogger(&middleware.DefaultLogFormatter{Logger: stdlog.New(io.Discard, "", 0), NoColor: true})
+		middleware.DefaultLogger = middleware.RequestLogger(c18Quiet{})
 		c18Silenced = true
 	}
 	write := c.Chance(250, "write-enabled")
@@ -273,6 +281,30 @@ func runC18(r *simkit.Run) {
 		}
 		r.Steps++
 	}
+	// a server that has been up for a long time: thousands of distinct, well-formed key lookups
+	// (one per slot in a deployment); each further one must be answered as a server that was
+	// just started answers it
+	if c.Chance(2, "long-running") {
+		cnt := c.Range(2000, 6000, "long-running-requests")
+		every := c.Range(200, 1500, "long-running-compare-every")
+		for i := 0; i < cnt; i++ {
+			target := fmt.Sprintf("/v1/decryptionKey/1/0x%064x", i+1000)
+			code := serve(router, "GET", target, "")
+			if i%every == every-1 || i == cnt-1 {
+				synctest.Wait()
+				fresh, _, _ := newServer()
+				want := serve(fresh, "GET", target, "")
+				synctest.Wait()
+				if code != want {
+					r.Fail("decision-depends-on-request-history", "long-running", "GET %s answered %d as distinct key lookup number %d of a long-running server and %d on a freshly started one", target, code, i+1, want)
+				}
+			}
+		}
+		if !write && (nTrig.Load() != baseTrig || nShut.Load() != baseShut) {
+			r.Fail("write-operation-reached-in-read-only-mode", "long-running", "a long sequence of key lookups reached a write operation")
+		}
+		r.Probe("long-running-server")
+	}
 	if code := do("GET", "/v1/ping", ""); code != 200 {
 		r.Fail("read-only-unreachable", "ping", "GET /v1/ping -> %d after the request sequence", code)
 	}
@@ -300,6 +332,7 @@ func runC18(r *simkit.Run) {
 	if c.Chance(400, "concurrent-bursts") && len(issued) >= 2 {
 		sched := simkit.NewSched(r)
 		cur := -1
+		verifhook.LockDepth = 0
 		verifhook.Yield = func(site string) {
 			if cur < 0 {
 				return
@@ -317,6 +350,36 @@ func runC18(r *simkit.Run) {
 					q = qs[0]
 				}
 				qs = append(qs, q)
+			}
+			if c.Chance(500, "burst-canonical") {
+				// the requests a deployment sees side by side: an exactly spelled write request
+				// next to exactly spelled read-only ones (a health check, a key lookup); what each
+				// gets alone is established on a fresh server of the same mode
+				canon := []issuedReq{
+					{"POST", "/v1/shutdown", "", 0}, {"POST", "/v1/decryptionTrigger", c18Body, 0},
+					{"GET", "/v1/ping", "", 0}, {"GET", "/v1/eons", "", 0}, {"GET", "/v1/decryptionKey/1/" + c18Epoch, "", 0},
+				}
+				qs = qs[:0]
+				qs = append(qs, canon[c.Intn(2, "burst-write")])
+				for i := 1; i < k; i++ {
+					qs = append(qs, canon[2+c.Intn(3, "burst-read")])
+				}
+				if c.Chance(500, "burst-read-first") {
+					qs[0], qs[k-1] = qs[k-1], qs[0]
+				}
+				if !write {
+					alone, _, _ := newServer()
+					for i := range qs {
+						qs[i].status = serve(alone, qs[i].method, qs[i].target, qs[i].body)
+						synctest.Wait()
+					}
+					r.Probe("burst-of-canonical-write-and-read")
+				} else {
+					qs = nil // with writes enabled the canonical writes succeed: nothing to tell apart
+				}
+			}
+			if qs == nil {
+				continue
 			}
 			baseT, baseS := nTrig.Load(), nShut.Load()
 			got := make([]int, k)
